@@ -26,3 +26,39 @@ theorem unravel_a4 (R C i j : ℤ) (hi : i < R) (hj0 : 0 ≤ j) (hj : j < C) : i
   have hC : 0 ≤ C := by linarith
   have h1 : i * C ≤ (R - 1) * C := mul_le_mul_of_nonneg_right (by linarith) hC
   nlinarith [h1]
+
+/-
+Three-dimensional version (np.ndindex over a (D, R, C) shape): the k-th index triple in row-major order is
+(k / C / R, (k / C) % R, k % C) and the position of (d, x, y) is (d * R + x) * C + y.  `nd3_axioms` of pyvc/npmodel4.py gives the
+solver exactly nd3_b1 and nd3_b2 about the uninterpreted nd3_d, nd3_x, nd3_y, flat3.
+-/
+theorem nd3_b1 (D R C k : ℤ) (hR : 0 < R) (hC : 0 < C) (hk0 : 0 ≤ k) (hk : k < D * R * C) :
+    0 ≤ k / C / R ∧ k / C / R < D ∧ 0 ≤ (k / C) % R ∧ (k / C) % R < R ∧ 0 ≤ k % C ∧ k % C < C ∧
+      ((k / C / R) * R + (k / C) % R) * C + k % C = k := by
+  have h1 := unravel_a2 C k hC hk0
+  have hq0 : 0 ≤ k / C := h1.2.2.2
+  have hq : k / C < D * R := unravel_a3 (D * R) C k hC hk
+  have h2 := unravel_a2 R (k / C) hR hq0
+  have hd : k / C / R < D := unravel_a3 D R (k / C) hR hq
+  refine ⟨h2.2.2.2, hd, h2.2.1, h2.2.2.1, h1.2.1, h1.2.2.1, ?_⟩
+  rw [h2.1]; exact h1.1
+
+theorem nd3_b2 (D R C d x y : ℤ) (hd0 : 0 ≤ d) (hd : d < D) (hx0 : 0 ≤ x) (hx : x < R) (hy0 : 0 ≤ y) (hy : y < C) :
+    0 ≤ (d * R + x) * C + y ∧ (d * R + x) * C + y < D * R * C ∧ ((d * R + x) * C + y) / C / R = d ∧
+      (((d * R + x) * C + y) / C) % R = x ∧ ((d * R + x) * C + y) % C = y := by
+  have hR : 0 < R := by linarith
+  have hC : 0 < C := by linarith
+  have hq0 : 0 ≤ d * R + x := add_nonneg (mul_nonneg hd0 hR.le) hx0
+  have a := unravel_a1 C (d * R + x) y hC hq0 hy0 hy
+  have b := unravel_a1 R d x hR hd0 hx0 hx
+  have hq : d * R + x < D * R := unravel_a4 D R d x hd hx0 hx
+  refine ⟨a.2.2, unravel_a4 (D * R) C (d * R + x) y hq hy0 hy, ?_, ?_, a.2.1⟩
+  · rw [a.1]; exact b.1
+  · rw [a.1]; exact b.2.1
+
+/-- psum_room: a prefix sum of a non-negative sequence, plus the next element, is at most any later prefix sum
+    (used as `room` in true_before_lemma: a True cell at position t has fewer True cells before it than there are in total) -/
+theorem psum_room (xs : ℕ → ℤ) (hnn : ∀ k, 0 ≤ xs k) (t n : ℕ) (h : t < n) :
+    (Finset.range t).sum xs + xs t ≤ (Finset.range n).sum xs := by
+  rw [← Finset.sum_range_succ]
+  exact Finset.sum_le_sum_of_subset_of_nonneg (Finset.range_mono h) (fun k _ _ => hnn k)
